@@ -278,6 +278,8 @@ func Conclude(cfg *Config, sum *Summary) int {
 			var again []foundViolation
 			if cfg.Property == "C10" {
 				_, again = c10kAll()
+			} else if cfg.Property == "C18" {
+				_, again = c18kAllocationAll()
 			} else {
 				_, again = c12kAll()
 				_, again2 := c12kKeeperAll(3)
